@@ -221,6 +221,11 @@ fn exec_framebuf(
     let mut fb = FrameBuf::with_size(channels, capacity).map_err(|e| format!("HARNESS: framebuf: {e}"))?;
     let mut ctx = Context::new(bits, channels);
     for (i, st) in steps.iter().enumerate() {
+        if i == steps.len() / 2 && i > 0 && data_seed % 3 == 0 {
+            // go on with a clone of the buffer (it must behave exactly like the original)
+            let c = fb.clone();
+            fb = c;
+        }
         let block = gen_block(&mut r, bits, st.len * channels);
         let res = pan::catch(|| {
             if via_tuple && (st.bps == 0 || st.bps == ctx.bytes_per_sample()) {
@@ -293,7 +298,14 @@ fn exec_context(case: &Case, channels: usize, bits: usize, data_seed: u64, steps
     let mut ints = Context::new(bits, channels);
     let mut bytes = Context::new(bits, channels);
     let bps = scripted.bytes_per_sample();
+    // half-way through, the all-bytes replica is replaced by a CLONE of itself (a context that was
+    // copied mid-stream must go on exactly like the original)
+    let clone_at = steps.len() / 2;
     for (i, st) in steps.iter().enumerate() {
+        if i == clone_at && i > 0 {
+            let c = bytes.clone();
+            bytes = c;
+        }
         let block = gen_block(&mut r, bits, st.len * channels);
         let res = pan::catch(|| {
             let a = do_fill_at(&mut scripted, &block, st.bps, (i * 3 + 1) % 8);
